@@ -2,6 +2,7 @@
 package document
 
 import (
+	"bytes"
 	"encoding/xml"
 	"fmt"
 	"strconv"
@@ -221,6 +222,86 @@ type FootnoteManager struct {
 	nextEndnoteID  int
 	footnotes      map[string]*Footnote
 	endnotes       map[string]*Endnote
+	// 文档已有的脚注/尾注部件（打开的文档、由模板克隆的文档）：其中的内容按原样保留，
+	// 新增的脚注/尾注使用其后的ID并写在它们之后
+	existingFootnotes *rawPart
+	existingEndnotes  *rawPart
+}
+
+// isRealNote 判断已有部件中的一个子元素是否是真正的脚注/尾注（而不是分隔符等特殊条目）
+func isRealNote(child rawChild, local string) bool {
+	if child.local != local {
+		return false
+	}
+	noteType := child.attrs["type"]
+	return noteType == "" || noteType == "normal"
+}
+
+// adoptNotes 读取已有的脚注/尾注部件。只含分隔符的部件（初始化时生成的）没有需要保留的内容，返回 nil。
+// 第二个返回值是之后新增条目应使用的第一个ID。
+func adoptNotes(raw []byte, rootLocal, noteLocal string) (*rawPart, int) {
+	part := readRawPart(raw, rootLocal)
+	if part == nil {
+		return nil, 1
+	}
+	next, real := 1, 0
+	for _, child := range part.children {
+		if !isRealNote(child, noteLocal) {
+			continue
+		}
+		real++
+		if id, err := strconv.Atoi(child.attrs["id"]); err == nil && id >= next {
+			next = id + 1
+		}
+	}
+	if real == 0 {
+		return nil, 1
+	}
+	return part, next
+}
+
+// countRealNotes 已有部件中真正的脚注/尾注的数量
+func countRealNotes(part *rawPart, noteLocal string) int {
+	if part == nil {
+		return 0
+	}
+	count := 0
+	for _, child := range part.children {
+		if isRealNote(child, noteLocal) {
+			count++
+		}
+	}
+	return count
+}
+
+// removeRealNote 从已有部件中删除指定ID的脚注/尾注；不存在时返回 false
+func removeRealNote(part *rawPart, noteLocal, id string) bool {
+	if part == nil {
+		return false
+	}
+	for i, child := range part.children {
+		if isRealNote(child, noteLocal) && child.attrs["id"] == id {
+			part.children = append(part.children[:i:i], part.children[i+1:]...)
+			return true
+		}
+	}
+	return false
+}
+
+// notesWithExisting 已有部件的内容在前，新增的条目（已序列化）在后
+func notesWithExisting(part *rawPart, xmlnsW string, added [][]byte) []byte {
+	var out bytes.Buffer
+	out.Write(part.openTag(xmlnsW))
+	for _, child := range part.children {
+		out.WriteString("\n  ")
+		out.Write(child.raw)
+	}
+	for _, note := range added {
+		out.WriteString("\n")
+		out.Write(note)
+	}
+	out.WriteString("\n" + part.closeTag())
+	return out.Bytes()
 }
 
 // getFootnoteManager 获取当前文档的脚注管理器。
@@ -233,6 +314,15 @@ func (d *Document) getFootnoteManager() *FootnoteManager {
 			nextEndnoteID:  1,
 			footnotes:      make(map[string]*Footnote),
 			endnotes:       make(map[string]*Endnote),
+		}
+		// 文档已经带有脚注/尾注时（打开的文档、由文档模板渲染出的文档）：保留它们，
+		// 新增的条目接着已有的ID编号，计数和删除也把它们算在内
+		manager := d.footnoteManager
+		if raw, ok := d.parts["word/footnotes.xml"]; ok {
+			manager.existingFootnotes, manager.nextFootnoteID = adoptNotes(raw, "footnotes", "footnote")
+		}
+		if raw, ok := d.parts["word/endnotes.xml"]; ok {
+			manager.existingEndnotes, manager.nextEndnoteID = adoptNotes(raw, "endnotes", "endnote")
 		}
 	}
 	return d.footnoteManager
@@ -519,8 +609,22 @@ func (d *Document) updateFootnotesFile() {
 		footnotes.Footnotes = append(footnotes.Footnotes, footnote)
 	}
 
-	// 序列化
-	footnotesXML, err := xml.MarshalIndent(footnotes, "", "  ")
+	// 序列化（文档已有的脚注原样保留在前面，已有部件自带分隔符）
+	var footnotesXML []byte
+	var err error
+	if manager.existingFootnotes != nil {
+		var added [][]byte
+		for _, footnote := range footnotes.Footnotes[1:] {
+			data, marshalErr := xml.MarshalIndent(footnote, "  ", "  ")
+			if marshalErr != nil {
+				return
+			}
+			added = append(added, data)
+		}
+		footnotesXML = notesWithExisting(manager.existingFootnotes, footnotes.Xmlns, added)
+	} else {
+		footnotesXML, err = xml.MarshalIndent(footnotes, "", "  ")
+	}
 	if err != nil {
 		return
 	}
@@ -560,8 +664,22 @@ func (d *Document) updateEndnotesFile() {
 		endnotes.Endnotes = append(endnotes.Endnotes, endnote)
 	}
 
-	// 序列化
-	endnotesXML, err := xml.MarshalIndent(endnotes, "", "  ")
+	// 序列化（文档已有的尾注原样保留在前面，已有部件自带分隔符）
+	var endnotesXML []byte
+	var err error
+	if manager.existingEndnotes != nil {
+		var added [][]byte
+		for _, endnote := range endnotes.Endnotes[1:] {
+			data, marshalErr := xml.MarshalIndent(endnote, "  ", "  ")
+			if marshalErr != nil {
+				return
+			}
+			added = append(added, data)
+		}
+		endnotesXML = notesWithExisting(manager.existingEndnotes, endnotes.Xmlns, added)
+	} else {
+		endnotesXML, err = xml.MarshalIndent(endnotes, "", "  ")
+	}
 	if err != nil {
 		return
 	}
@@ -602,24 +720,25 @@ func (d *Document) addEndnoteRelationship() {
 // GetFootnoteCount 获取脚注数量
 func (d *Document) GetFootnoteCount() int {
 	manager := d.getFootnoteManager()
-	return len(manager.footnotes)
+	return len(manager.footnotes) + countRealNotes(manager.existingFootnotes, "footnote")
 }
 
 // GetEndnoteCount 获取尾注数量
 func (d *Document) GetEndnoteCount() int {
 	manager := d.getFootnoteManager()
-	return len(manager.endnotes)
+	return len(manager.endnotes) + countRealNotes(manager.existingEndnotes, "endnote")
 }
 
 // RemoveFootnote 删除指定脚注
 func (d *Document) RemoveFootnote(footnoteID string) error {
 	manager := d.getFootnoteManager()
 
-	if _, exists := manager.footnotes[footnoteID]; !exists {
+	if _, exists := manager.footnotes[footnoteID]; exists {
+		delete(manager.footnotes, footnoteID)
+	} else if !removeRealNote(manager.existingFootnotes, "footnote", footnoteID) {
 		return fmt.Errorf("脚注 %s 不存在", footnoteID)
 	}
 
-	delete(manager.footnotes, footnoteID)
 	d.updateFootnotesFile()
 
 	return nil
@@ -629,11 +748,12 @@ func (d *Document) RemoveFootnote(footnoteID string) error {
 func (d *Document) RemoveEndnote(endnoteID string) error {
 	manager := d.getFootnoteManager()
 
-	if _, exists := manager.endnotes[endnoteID]; !exists {
+	if _, exists := manager.endnotes[endnoteID]; exists {
+		delete(manager.endnotes, endnoteID)
+	} else if !removeRealNote(manager.existingEndnotes, "endnote", endnoteID) {
 		return fmt.Errorf("尾注 %s 不存在", endnoteID)
 	}
 
-	delete(manager.endnotes, endnoteID)
 	d.updateEndnotesFile()
 
 	return nil
